@@ -116,6 +116,8 @@ void cmb_resourceguard_terminate(struct cmb_resourceguard *rgp)
     cmi_hashheap_terminate((struct cmi_hashheap *)rgp);
 }
 
+static void wakeup_event_resource(void *vp, void *arg);
+
 /*
  * cmb_resourceguard_wait - Enqueue and suspend the calling process until it
  * reaches the front of the priority queue and its demand function returns true.
@@ -155,7 +157,16 @@ int64_t cmb_resourceguard_wait(struct cmb_resourceguard *rgp,
 
     /* Back here, possibly much later. Return the signal that resumed us. */
     if (sig != CMB_PROCESS_SUCCESS) {
-        cmi_hashheap_cancel((struct cmi_hashheap *)rgp, key);
+        if (!cmi_hashheap_cancel((struct cmi_hashheap *)rgp, key)) {
+            /*
+             * Not in the queue anymore: we had already been granted our turn
+             * (or cancelled) when something else woke us in the same instant.
+             * That wakeup must not reach us later in some unrelated wait, and
+             * the turn goes to the next in line instead of being lost.
+             */
+            (void)cmb_event_pattern_cancel(wakeup_event_resource, pp, CMB_ANY_OBJECT);
+            (void)cmb_resourceguard_signal(rgp);
+        }
     }
 
     cmb_assert_debug(!cmi_hashheap_is_enqueued((struct cmi_hashheap *)rgp, key));
